@@ -1,7 +1,16 @@
 """C09 - samplers are scheduled exactly as the chosen scheduler prescribes (shared calibrator model)."""
 from __future__ import annotations
 
+import contextlib
+import copy
+import io
 import json
+import os
+import shutil
+import threading
+from pathlib import Path
+
+import numpy as np
 
 from props import calib_common as cc
 from props import calib_family as cf
@@ -81,21 +90,617 @@ def bootstrap_cases(chk, stats):
     return len(lits)
 
 
+
+# ======================================================================================================================
+# Round 4 (generator sweep): extended trace runner, shared by C09, C14 and C18 (they import it from here).
+#
+# `run_case_x` executes the same kind of case as calib_common.run_case and understands further, optional keys that widen
+# what the real Calibrator is given; absent keys give exactly the behaviour of calib_common.run_case:
+#   lineup_repr  "list" | "tuple"    the sampler line-ups (constructor, RL scheduler, set_samplers, set_scheduler) are tuples
+#   mutate_lineup  bool              after handing a *list* to the library the harness reverses its own list and appends a
+#                                    foreign sampler to it: the line-up in force is the one that was handed over
+#   bs_np        bool                batch sizes are numpy integers
+#   n_repr       "int" | "np"        calibrate(np.int64(n))
+#   prec_np      bool                the convergence precision is a numpy integer (only without a saving folder: json)
+#   loss_repr    None | "np64" | "f32" | "0d" | "int"    type of the value the loss function returns
+#   prefill      {...}               the folder already holds ANOTHER run (other line-up, other ensemble size) when the
+#                                    calibrator is constructed
+#   folder_repr  "str" | "path" | "slash"   how the folder is named in create_checkpoint / restore / the plotting helpers
+#   rl.agent     {"alpha", "eps", "init"}   a real MABEpsilonGreedy agent (recording subclass) instead of the scripted one
+#   want_names   bool                after every operation that leaves a checkpoint: plot_results._get_samplers_names on
+#                                    the ids read from calibration_results.csv, as the plotting functions do
+# and the operations
+#   ["set_bs", uid, k]               sampler.batch_size = k on the live object uid
+#   ["set_cfg", prec, verbose, saving]   calibrator.convergence_precision / .verbose / .saving_folder reassigned
+# which the Coq model replays as XSetBsize / XSetCfg (coq/Model/CalibX.v).
+XIMPORTS = "From Coq Require Import List ZArith QArith.\nFrom BlackIt Require Import Model.CalibX."
+XCASE_T = "xcase"
+FOREIGN_UID = 95
+
+
+class TokLossX(cc.TokLoss):
+    """The scripted loss, returning its value in another representation (the value itself is unchanged)."""
+
+    def __init__(self, palette, salt, wrap=None):
+        super().__init__(palette, salt)
+        self.wrap = wrap
+
+    def compute_loss(self, sim, real):
+        x = super().compute_loss(sim, real)
+        w = self.wrap
+        if w == "np64":
+            return np.float64(x)
+        if w == "f32":
+            return np.float32(x)          # the palette of such a case holds float32-representable values only
+        if w == "0d":
+            return np.array(x)
+        if w == "int" and float(x).is_integer() and abs(x) < 2**53:
+            return int(x)
+        return x
+
+
+def make_eps_agent(spec, n_actions):
+    from black_it.schedulers.rl.agents.epsilon_greedy import MABEpsilonGreedy
+
+    class _RecEps(MABEpsilonGreedy):
+        def __init__(self):
+            super().__init__(n_actions=n_actions, alpha=spec["alpha"], eps=spec["eps"], initial_values=spec["init"], random_state=0)
+            self.actions, self.learned = [], []
+
+        def policy(self, obs):
+            a = super().policy(obs)
+            self.actions.append(int(a))
+            return a
+
+        def learn(self, state, action, reward, next_state):
+            self.learned.append((int(action), float(reward)))
+            super().learn(state, action, reward, next_state)
+
+    return _RecEps()
+
+
+def named_halton_class():
+    """A token sampler class whose NAME is HaltonSampler (for round-robin line-ups that are checkpointed: the tokenised real
+    HaltonSampler of the RL cases carries an instance-level method and cannot be unpickled)."""
+    if globals().get("HaltonSampler") is None:
+        from black_it.samplers.base import BaseSampler
+
+        def __init__(self, uid, bs, random_state=None, rows=None):
+            BaseSampler.__init__(self, bs, random_state, max_deduplication_passes=0)
+            self.tok_uid, self.tok_calls, self.tok_rows, self.seen = uid, 0, rows, []
+
+        cls = type("HaltonSampler", (BaseSampler,), {"__init__": __init__, "sample_batch": cc._tok_sample_batch})  # noqa: SLF001
+        cls.__module__ = __name__
+        globals()["HaltonSampler"] = cls
+    return globals()["HaltonSampler"]
+
+
+def make_sampler_x(spec, case):
+    if case.get("bs_np"):
+        spec = dict(spec, bs=np.int64(spec["bs"]))
+    if spec["cls"] == cc.HALTON_CLASS and case.get("rl") is None:
+        return named_halton_class()(spec["uid"], spec["bs"], spec.get("seed"), spec.get("rows"))
+    return cc.make_sampler(spec)
+
+
+def _lineup(objs, case):
+    return tuple(objs) if case.get("lineup_repr") == "tuple" else list(objs)
+
+
+def _spoil(lst, case):
+    """The caller goes on using its own list after handing it over."""
+    if case.get("mutate_lineup") and isinstance(lst, list):
+        lst.reverse()
+        lst.append(cc.make_sampler({"cls": 5, "uid": FOREIGN_UID, "bs": 1}))
+
+
+def _folder_arg(folder, case, ctor=False):
+    r = case.get("folder_repr", "str")
+    if r == "path" and not ctor:
+        return Path(folder)
+    if r == "slash":
+        return str(folder) + "/"
+    return str(folder)
+
+
+def _prefill(folder, spec):
+    from black_it.calibrator import Calibrator
+
+    objs = [cc.make_sampler(s) for s in spec["samplers"]]
+    with contextlib.redirect_stdout(io.StringIO()):
+        c0 = Calibrator(loss_function=cc.TokLoss(spec["palette"], spec["salt"]), real_data=np.zeros((2, 1)), model=cc.tok_model,
+                        parameters_bounds=[[0.0], [10.0]], parameters_precision=[1.0], ensemble_size=spec["E"], samplers=objs,
+                        convergence_precision=None, verbose=False, saving_folder=str(folder), random_state=spec["seed"], n_jobs=1)
+        c0.calibrate(spec["n"])
+
+
+def plot_names(folder_arg):
+    """(id, name) for the ids of calibration_results.csv, read and mapped as plot_convergence / plot_sampling do."""
+    try:
+        import pandas as pd
+        from black_it.plot import plot_results
+
+        ids = pd.read_csv(Path(folder_arg) / "calibration_results.csv")["method_samp"].unique()
+        if len(ids) == 0:
+            return []
+        names = plot_results._get_samplers_names(folder_arg, ids)  # noqa: SLF001
+        return [[int(i), str(n)] for i, n in zip(ids, names)]
+    except Exception as e:  # noqa: BLE001
+        return f"{type(e).__name__}: {e}"
+
+
+def plot_table_x(folder_arg):
+    try:
+        from black_it.plot import plot_results
+
+        t = plot_results._get_samplers_id_table(folder_arg)  # noqa: SLF001
+        return [(cc.tok_class_index(k), int(v)) for k, v in t.items()]
+    except Exception as e:  # noqa: BLE001
+        return f"{type(e).__name__}: {e}"
+
+
+def run_case_x(case, keep=False):
+    from black_it.calibrator import Calibrator
+
+    G = cc.G
+    folder = cc.SCRATCH / f"{os.getpid()}" / f"xcase{case.get('idx', 0)}"
+    if folder.exists():
+        shutil.rmtree(folder)
+    folder.mkdir(parents=True)
+    G.update(fault=None, model_calls=0, loss_calls=0, flavour=None, hung=False)
+    if case.get("prefill"):
+        _prefill(folder, case["prefill"])
+    G.update(fault=tuple(case["fault"]) if case.get("fault") else None, model_calls=0, loss_calls=0,
+             flavour=case.get("fault_flavour"), hung=False)
+    obs = {"ctor_exn": 0, "views": [], "actions": [], "rl": None, "loss_bad": [], "sampler_seen": {}}
+    loss = TokLossX(case["palette"], case["salt"], case.get("loss_repr"))
+    samplers = _lineup([make_sampler_x(s, case) for s in case["samplers"]], case) if case.get("samplers") is not None else None
+    scheduler = agent = None
+
+    def build_rl():
+        from black_it.schedulers.rl.envs.mab import MABCalibrationEnv
+        from black_it.schedulers.rl.rl_scheduler import RLScheduler
+
+        rl_s = _lineup([make_sampler_x(s, case) for s in case["rl"]["samplers"]], case)
+        has_h = any(s["cls"] == cc.HALTON_CLASS for s in case["rl"]["samplers"])
+        if case["rl"].get("agent"):
+            n_act = len(rl_s) + (0 if has_h else 1)
+            ag = make_eps_agent(case["rl"]["agent"], n_act)
+        else:
+            n_act = len(rl_s) + 1
+            ag = cc.make_agent(case["rl"]["script"])
+        sch = RLScheduler(rl_s, ag, MABCalibrationEnv(n_act))
+        _spoil(rl_s, case)
+        for s in sch.samplers:
+            if not hasattr(s, "tok_uid"):
+                cc.tokenise_halton(s, 90)
+        obs["rl"] = {"samplers": [(cc.class_id(s), s.tok_uid, int(s.batch_size)) for s in sch.samplers],
+                     "halton_id": int(sch._halton_sampler_id)}  # noqa: SLF001
+        return sch, ag
+
+    cfg = case["cfg"]
+    prec = cfg["prec"]
+    if case.get("prec_np") and prec is not None:
+        prec = np.int64(prec)
+    sink = io.StringIO()
+    try:
+        with contextlib.redirect_stdout(sink):
+            if case.get("rl") is not None:
+                scheduler, agent = build_rl()
+            if case.get("both") is not None:
+                from black_it.schedulers.round_robin import RoundRobinScheduler
+
+                scheduler = RoundRobinScheduler(_lineup([make_sampler_x(s, case) for s in case["both"]], case))
+            cal = Calibrator(
+                loss_function=loss, real_data=np.zeros((2, 1)), model=cc.tok_model,
+                parameters_bounds=[[0.0], [10.0]], parameters_precision=[1.0], ensemble_size=cfg["E"],
+                samplers=samplers, scheduler=scheduler,
+                convergence_precision=prec, verbose=cfg["verbose"],
+                saving_folder=_folder_arg(folder, case, ctor=True) if cfg["saving"] else None, random_state=case["seed"], n_jobs=1,
+            )
+    except Exception as e:  # noqa: BLE001
+        obs["ctor_exn"] = cc.exn_code(e)
+        obs["ctor_exc"] = f"{type(e).__name__}: {e}"
+        shutil.rmtree(folder, ignore_errors=True)
+        return obs
+    _spoil(samplers, case)
+    for op in case["ops"]:
+        err, returned = None, []
+        sink = io.StringIO()
+        try:
+            with contextlib.redirect_stdout(sink):
+                if G.get("hung"):
+                    raise TimeoutError("skipped: an earlier call of this case never returned")
+                if op[0] == "calibrate":
+                    n = np.int64(op[1]) if case.get("n_repr") == "np" else op[1]
+                    p, l = cc.call_with_watchdog(lambda n=n: cal.calibrate(n)) if case.get("rl") else cal.calibrate(n)
+                    returned = [(int(a[0]), float(b)) for a, b in zip(p, l)]
+                elif op[0] == "checkpoint":
+                    cal.create_checkpoint(_folder_arg(folder, case))
+                elif op[0] == "restore":
+                    cal = Calibrator.restore_from_checkpoint(_folder_arg(folder, case), model=cc.tok_model)
+                elif op[0] == "set_samplers":
+                    new = _lineup([make_sampler_x(s, case) for s in op[1]], case)
+                    cal.set_samplers(new)
+                    _spoil(new, case)
+                elif op[0] == "set_scheduler":
+                    from black_it.schedulers.round_robin import RoundRobinScheduler
+
+                    new = _lineup([make_sampler_x(s, case) for s in op[1]], case)
+                    cal.set_scheduler(RoundRobinScheduler(new))
+                    _spoil(new, case)
+                elif op[0] == "set_bs":
+                    for s in {id(s): s for s in cal.scheduler.samplers}.values():
+                        if getattr(s, "tok_uid", None) == op[1]:
+                            s.batch_size = np.int64(op[2]) if case.get("bs_np") else op[2]
+                elif op[0] == "set_cfg":
+                    cal.convergence_precision = op[1]
+                    cal.verbose = op[2]
+                    cal.saving_folder = _folder_arg(folder, case, ctor=True) if op[3] else None
+        except Exception as e:  # noqa: BLE001
+            err = e
+        except cc.TokInterrupt as e:
+            err = e
+        v = cc.core_view(cal)
+        v["exn"] = cc.exn_code(err)
+        v["exc"] = None if err is None else f"{type(err).__name__}: {err}"
+        v["returned"] = returned
+        v["disk"] = cc.disk_view(folder)
+        v["threads"] = sum(1 for t in threading.enumerate() if t is not threading.main_thread() and t.is_alive())
+        v["bsizes"] = [int(s.batch_size) for s in cal.scheduler.samplers]
+        if agent is not None:
+            v["nlearned"] = len(agent.learned)
+        has_ckpt = (folder / "scheduler_pickled.pickle").exists()
+        if case.get("want_plot") and has_ckpt:
+            v["plot_table"] = plot_table_x(_folder_arg(folder, case))
+        if case.get("want_names") and has_ckpt and (folder / "calibration_results.csv").exists():
+            v["plot_names"] = plot_names(_folder_arg(folder, case))
+        obs["views"].append(v)
+    if agent is not None:
+        obs["actions"] = list(agent.actions)
+        obs["learned"] = list(agent.learned)
+    obs["loss_bad"] = loss.bad
+    cc.release_threads(cal)
+    if not keep:
+        shutil.rmtree(folder, ignore_errors=True)
+    return obs
+
+
+def c_xop(op):
+    from common import cbool, cnat, copt
+
+    if op[0] == "set_bs":
+        return f"(XSetBsize {cnat(op[1])} {cnat(op[2])})"
+    if op[0] == "set_cfg":
+        return f"(XSetCfg {copt(op[1], cnat)} {cbool(op[2])} {cbool(op[3])})"
+    return f"(XOp {cc.c_op(op)})"
+
+
+def emit_xcase(case, obs):
+    from common import cbool, clist, cnat, copt, cq, cz
+
+    groups = [case.get("samplers") or [], (case.get("rl") or {}).get("samplers", []), case.get("both") or []]
+    maxbs = 1
+    for op in case["ops"]:
+        if op[0] in ("set_samplers", "set_scheduler"):
+            groups.append(op[1])
+        if op[0] == "set_bs":
+            maxbs = max(maxbs, op[2])
+    nmax = max([len(g) + 1 for g in groups] + [1])
+    maxbs = max([maxbs] + [max(s["bs"], s.get("rows") or 0) for g in groups for s in g])
+    ndraws = 8 + sum(op[1] * maxbs * case["cfg"]["E"] + 2 * nmax + 2 for op in case["ops"] if op[0] == "calibrate")
+    draws = [int(x) for x in np.random.default_rng(case["seed"]).integers(2**32 - 1, size=ndraws)]
+    cfg = case["cfg"]
+    samplers = "None" if case.get("samplers") is None else "(Some " + clist([cc.c_sampler(s) for s in case["samplers"]]) + ")"
+    if obs.get("rl"):
+        rl = ("(Some (" + clist([f"(mkS {cnat(c)} {cnat(u)} {cnat(b)} 0%nat None)" for c, u, b in obs["rl"]["samplers"]])
+              + f", {cnat(obs['rl']['halton_id'])}))")
+    else:
+        rl = "None"
+    rr = "None" if case.get("both") is None else "(Some " + clist([cc.c_sampler(s) for s in case["both"]]) + ")"
+    base = ("(mkCase " + " ".join([
+        clist([cq(x) for x in case["palette"]]), cz(case["salt"]), clist([cz(d) for d in draws]),
+        clist([cnat(a) for a in obs.get("actions", [])]), cc.c_fault(case.get("fault")),
+        f"(mkCfg {cnat(cfg['E'])} {copt(cfg['prec'], cnat)} {cbool(cfg['verbose'])} {cbool(cfg['saving'])})",
+        samplers, rl, rr, cnat(obs["ctor_exn"]), "nil"]) + ")")
+    ops = clist([f"({c_xop(op)}, {cc.c_view(v)})" for op, v in zip(case["ops"], obs["views"])])
+    return f"(mkXCase {base} {ops})"
+
+
+def run_traces_x(chk, cases, oracle, nontrivial, label="xtrace"):
+    """cf.run_traces for extended cases (run_case_x, Model/CalibX.v)."""
+    from collections import Counter
+
+    observations = [run_case_x(c) for c in cases]
+    lits = [emit_xcase(c, o) for c, o in zip(cases, observations)]
+    bad, errors = chk.coq_mismatches(label, XIMPORTS, "check_xcase", XCASE_T, lits, shard=50) if lits else ([], [])
+    stats = Counter()
+    keys, nontriv = set(), set()
+    for i, (c, o) in enumerate(zip(cases, observations)):
+        key = json.dumps({k: c[k] for k in c if k != "idx"}, sort_keys=True)
+        keys.add(key)
+        if nontrivial(c, o):
+            nontriv.add(key)
+        for v in o["views"]:
+            stats[f"x:exn={v['exn']}"] += 1
+        for op in c["ops"]:
+            stats[f"x:op={op[0]}"] += 1
+        stats["x:rl" if c.get("rl") else "x:rr"] += 1
+        for k in ("lineup_repr", "mutate_lineup", "bs_np", "n_repr", "prec_np", "loss_repr", "prefill", "folder_repr", "fault"):
+            if c.get(k):
+                stats[f"x:{k}" + (f"={c[k]}" if isinstance(c[k], str) else "")] += 1
+        if (c.get("rl") or {}).get("agent"):
+            stats["x:rl-eps-greedy" + ("-sample-average" if c["rl"]["agent"]["alpha"] == -1 else "")] += 1
+        fails = oracle(c, o)
+        seen = set()
+        for clause, detail in fails:
+            if clause in seen:
+                continue
+            seen.add(clause)
+            chk.violation({"kind": "oracle", "clause": clause},
+                          {"failed": f"oracle:{clause}", "detail": detail, "case": c,
+                           "observed": [{k: v[k] for k in v if k != "series"} for v in o["views"]]})
+        if i in bad and not fails:
+            vals, _ = chk.coq_eval("firstbadx", XIMPORTS, [f"first_bad_x {lits[i]}"])
+            chk.violation({"kind": "correspondence", "name": "Calibrator"},
+                          {"failed": "correspondence:Model/CalibX.v + Model/Calibrator.v (model and implementation views disagree; "
+                                     "the property oracle found no failing input)", "first_disagreeing_op": vals[0], "case": c,
+                           "observed": [{k: v[k] for k in v if k != "series"} for v in o["views"]]}, no_input=True)
+    for e in errors:
+        chk.violation({"kind": "correspondence", "name": "coqc"}, {"failed": "correspondence:coqc", "detail": e}, no_input=True)
+    return observations, bad, stats, keys, nontriv
+
+
+def in_force(case, obs):
+    """Per operation, the attribute values in force WHEN THE OPERATION RAN and what it produced:
+    [(op, view, {bs: {uid: size}, prec, verbose, saving}, new batch groups, completed batches, wrote a checkpoint)].
+    A successful restore returns to the values pickled with the checkpoint."""
+    specs = cf.sampler_specs(case)
+    cfg = case["cfg"]
+    now = {"bs": {u: s["bs"] for u, s in specs.items()}, "prec": cfg["prec"], "verbose": cfg["verbose"], "saving": cfg["saving"]}
+    now["bs"].setdefault(FOREIGN_UID, 1)
+    disk = None
+    out = []
+    prev_groups, prev_bi = 0, 0
+    for op, v in zip(case["ops"], obs["views"]):
+        if op[0] == "set_bs":
+            now["bs"][op[1]] = op[2]
+        elif op[0] == "set_cfg":
+            now.update(prec=op[1], verbose=op[2], saving=op[3])
+        elif op[0] == "restore" and v["exn"] == 0 and disk is not None:
+            now = copy.deepcopy(disk)
+        gs = cf.groups_of(v)
+        new = gs[prev_groups:] if op[0] == "calibrate" else []
+        ran = v["batchidx"] - prev_bi if op[0] == "calibrate" else 0
+        wrote = (op[0] == "checkpoint" and v["exn"] == 0) or \
+                (op[0] == "calibrate" and now["saving"] and (ran > 0 or (op[1] == 0 and v["exn"] == 0)))
+        out.append((op, v, copy.deepcopy(now), new, ran, wrote))
+        if wrote:
+            disk = copy.deepcopy(now)
+        prev_groups, prev_bi = len(gs), v["batchidx"]
+    return out
+
+
+def oracle_c09_x(case, obs):
+    """C09 on extended cases: the unchanged clauses of cf.oracle_c09 (they skip the round-robin clause when the case has
+    operations other than calibrate/checkpoint/restore) + positions and batch sizes IN FORCE."""
+    fails = cf.oracle_c09(case, obs)
+    if case.get("ctor_combo") or obs["ctor_exn"]:
+        return fails
+    lineup_fixed = all(op[0] not in ("set_samplers", "set_scheduler") for op in case["ops"])
+    for k, (op, v, now, new, ran, wrote) in enumerate(in_force(case, obs)):
+        for u, c, idxs in new:
+            if len(idxs) != now["bs"].get(u):
+                fails.append(("batch-size-in-force", f"op {k}: a batch of sampler uid {u} has {len(idxs)} rows, its batch_size is {now['bs'].get(u)}"))
+        if case.get("samplers") is not None and lineup_fixed:
+            line = case["samplers"]
+            for g, (u, c, idxs) in enumerate(cf.groups_of(v)):
+                if u != line[g % len(line)]["uid"]:
+                    fails.append(("round-robin", f"op {k}: batch {g} produced by sampler uid {u}, expected position {g % len(line)} "
+                                                 f"(uid {line[g % len(line)]['uid']})"))
+                    break
+        if FOREIGN_UID in {u for u, _, _ in cf.groups_of(v)}:
+            fails.append(("lineup-aliased", f"op {k}: a sampler the caller appended to its own list AFTER handing it over produced a batch"))
+    return fails
+
+
+def gen_xcases(chk):
+    """Round 4: line-ups as tuples / lists the caller goes on changing, numpy-integer batch sizes and batch counts, batch sizes
+    and calibrator attributes reassigned between calls, a real epsilon-greedy agent (constant and sample-average step), a
+    saving folder that already holds another run, losses returned as numpy scalars / 0-d arrays."""
+    rng = chk.rng
+    quick = chk.tier == "quick"
+    cases = []
+    for i in range(200 if quick else 1000):
+        kind = i % 5
+        rl = kind in (1, 3)
+        c = cc.gen_case(rng, len(cases), max_ops=6 if quick else 10, max_samplers=6,
+                        allow=("calibrate", "checkpoint", "restore"), rl=rl, prec_prob=6)
+        c["x"] = 1
+        line = c["rl"]["samplers"] if rl else c["samplers"]
+        uids = [s["uid"] for s in line]
+        if rl:
+            c["palette"] = [abs(x) + 0.125 for x in c["palette"]] + ([0.0, 0.0] if i % 2 else [])
+            rng.shuffle(c["palette"])
+            if all(s["cls"] != cc.HALTON_CLASS for s in line):
+                uids.append(90)
+            if kind == 3:
+                c["rl"]["agent"] = {"alpha": rng.choice([-1, 0.1, 0.5]), "eps": rng.choice([0.0, 0.3, 1.0]),
+                                    "init": rng.choice([0.0, 1.0])}
+        c["lineup_repr"] = "tuple" if rng.below(2) else "list"
+        c["mutate_lineup"] = c["lineup_repr"] == "list" and bool(rng.below(2))
+        c["bs_np"] = rng.below(3) == 0
+        c["n_repr"] = "np" if rng.below(3) == 0 else "int"
+        c["loss_repr"] = rng.choice([None, None, "np64", "0d"])
+        ops = []
+        for op in c["ops"]:
+            if rng.below(3) == 0:
+                ops.append(["set_bs", rng.choice(uids), rng.randint(1, 4)])
+            if rng.below(6) == 0:
+                ops.append(["set_cfg", c["cfg"]["prec"] if rng.below(2) else None, bool(rng.below(2)), bool(rng.below(2)) and not rl])
+            ops.append(op)
+        c["ops"] = ops + [["calibrate", rng.randint(1, 3)]]
+        if kind == 2:
+            k = rng.choice(["model", "loss", "sampler"])
+            c["fault"] = ["sampler", rng.below(len(line)), rng.below(3)] if k == "sampler" else [k, rng.below(10)]
+            c["ops"] += [["calibrate", rng.randint(1, 2)]]
+        if kind == 4:
+            c["cfg"]["saving"] = True
+            c["prefill"] = {"samplers": cc.gen_samplers(rng, rng.randint(1, 3), 140, 3), "n": rng.randint(1, 4),
+                            "E": rng.randint(1, 3), "seed": rng.below(2**31), "palette": [1.0, 2.0, 3.0], "salt": rng.below(100)}
+            c["ops"] = [["calibrate", rng.randint(0, 2)]] + c["ops"]
+            c["folder_repr"] = rng.choice(["str", "path", "slash"])
+        cases.append(c)
+    # constructor combinations: tuples, and an RL scheduler as the `scheduler` argument
+    for has_s in (False, True):
+        for has_sch in (False, True):
+            c = cc.gen_case(rng, len(cases), max_ops=1, max_samplers=3, rl=has_sch)
+            c["x"] = 1
+            c["ctor_combo"] = [has_s, has_sch]
+            c["ops"] = [["calibrate", 1]]
+            c["lineup_repr"] = "tuple"
+            c["palette"] = [abs(x) + 0.125 for x in c["palette"]]
+            c["samplers"] = cc.gen_samplers(rng, 2, 20) if has_s else None
+            cases.append(c)
+    return cases
+
+
+def gen_direct(chk):
+    """Line-ups that hold one sampler OBJECT at several positions, and one list of sampler objects given to two calibrators
+    used alternately (after a rejected both-arguments constructor on the same list)."""
+    rng = chk.rng
+    out = []
+    for i in range(40 if chk.tier == "quick" else 200):
+        nobj = rng.randint(1, 4)
+        objs = [{"cls": rng.below(4), "uid": j, "bs": rng.randint(1, 3)} for j in range(nobj)]
+        if i % 2 == 0:
+            pos = [rng.below(nobj) for _ in range(rng.randint(2, 6))]
+            script = []
+            for _ in range(rng.randint(1, 4)):
+                script.append(rng.randint(0, 4))
+                if rng.below(3) == 0:
+                    script.append("restore")
+            out.append({"kind": "shared", "objs": objs, "pos": pos, "script": script, "tuple": bool(rng.below(2)),
+                        "seed": rng.below(2**31), "E": rng.randint(1, 2)})
+        else:
+            script = [[rng.choice("AB"), rng.randint(0, 3)] for _ in range(rng.randint(2, 6))]
+            out.append({"kind": "two", "objs": objs, "script": script, "seed": rng.below(2**31), "E": 1})
+    return out
+
+
+def run_direct(d, tag=0):
+    from black_it.calibrator import Calibrator
+    from black_it.schedulers.round_robin import RoundRobinScheduler
+
+    cc.G.update(fault=None, model_calls=0, loss_calls=0, flavour=None, hung=False)
+    folder = cc.SCRATCH / f"{os.getpid()}" / f"direct{tag}"
+    if folder.exists():
+        shutil.rmtree(folder)
+    folder.mkdir(parents=True)
+    objs = [cc.make_sampler(s) for s in d["objs"]]
+    fails = []
+
+    def mk(line, seed):
+        with contextlib.redirect_stdout(io.StringIO()):
+            return Calibrator(loss_function=cc.TokLoss([1.0, 2.5, 0.5, 4.0], 7), real_data=np.zeros((2, 1)), model=cc.tok_model,
+                              parameters_bounds=[[0.0], [10.0]], parameters_precision=[1.0], ensemble_size=d["E"], samplers=line,
+                              verbose=False, random_state=seed, n_jobs=1)
+
+    def judge(cal, pos, who):
+        v = cc.core_view(cal)
+        gs = cf.groups_of(v)
+        if len(gs) != v["batchidx"]:
+            fails.append(("round-robin", f"{who}: {len(gs)} batches recorded, batch counter {v['batchidx']}"))
+        for g, (u, c, idxs) in enumerate(gs):
+            want = d["objs"][pos[g % len(pos)]]
+            if u != want["uid"]:
+                fails.append(("round-robin", f"{who}: batch {g} produced by object uid {u}, position {g % len(pos)} holds uid {want['uid']}"))
+                break
+            if len(idxs) != want["bs"]:
+                fails.append(("batch-size", f"{who}: batch {g} has {len(idxs)} rows, batch_size {want['bs']}"))
+                break
+        return len(gs)
+
+    nb = 0
+    try:
+        with contextlib.redirect_stdout(io.StringIO()):
+            if d["kind"] == "shared":
+                line = [objs[j] for j in d["pos"]]
+                cal = mk(tuple(line) if d["tuple"] else line, d["seed"])
+                for st in d["script"]:
+                    if st == "restore":
+                        cal.create_checkpoint(str(folder))
+                        cal = Calibrator.restore_from_checkpoint(str(folder), model=cc.tok_model)
+                    else:
+                        cal.calibrate(st)
+                    nb = judge(cal, d["pos"], "shared-object line-up " + str(d["pos"]))
+            else:
+                pos = list(range(len(objs)))
+                try:
+                    Calibrator(loss_function=cc.TokLoss([1.0], 0), real_data=np.zeros((2, 1)), model=cc.tok_model,
+                               parameters_bounds=[[0.0], [10.0]], parameters_precision=[1.0], ensemble_size=1, samplers=objs,
+                               scheduler=RoundRobinScheduler(objs), verbose=False, random_state=1, n_jobs=1)
+                    fails.append(("ctor", "samplers and scheduler both given: accepted"))
+                except ValueError:
+                    pass
+                cals = {"A": mk(objs, d["seed"]), "B": mk(objs, d["seed"] + 1)}
+                for who, n in d["script"]:
+                    cals[who].calibrate(n)
+                    for w in "AB":
+                        nb = max(nb, judge(cals[w], pos, f"calibrator {w} of two sharing one sampler list"))
+    except Exception as e:  # noqa: BLE001
+        fails.append(("round-robin", f"unexpected {type(e).__name__}: {e}"))
+    shutil.rmtree(folder, ignore_errors=True)
+    return fails, nb
+
+
+def direct_cases(chk, stats, only=None):
+    ds = [only] if only is not None else gen_direct(chk)
+    nontriv = 0
+    for t, d in enumerate(ds):
+        fails, nb = run_direct(d, t)
+        stats[f"direct:{d['kind']}"] += 1
+        nontriv += nb >= 3
+        seen = set()
+        for clause, detail in fails:
+            if clause not in seen:
+                seen.add(clause)
+                chk.violation({"kind": "oracle", "clause": clause},
+                              {"failed": f"oracle:{clause}", "detail": detail, "case": {"direct": d}})
+    return len(ds), nontriv
+
 def run(chk, replay=None):
     chk.proof_gate()
     cases = [json.loads(open(replay).read())["case"]] if replay else gen_cases(chk)
+    xcases, direct_only, do_direct = [], None, not replay
     if replay and "bootstrap" in cases[0]:
         cases = []
-    obs, bad, stats, keys, nontriv = cf.run_traces(chk, cases, cf.oracle_c09, nontrivial, label="C09")
+    elif replay and "direct" in cases[0]:
+        direct_only, do_direct, cases = cases[0]["direct"], True, []
+    elif replay and cases[0].get("x"):
+        xcases, cases = cases, []
+    elif not replay:
+        xcases = gen_xcases(chk)
+    obs, bad, stats, keys, nontriv = cf.run_traces(chk, cases, cf.oracle_c09, nontrivial, label="C09", shard=50)
+    xobs, xbad, xstats, xkeys, xnontriv = run_traces_x(chk, xcases, oracle_c09_x, nontrivial, label="C09x")
+    stats.update(xstats)
     nboot = bootstrap_cases(chk, stats)
+    ndirect, dnontriv = direct_cases(chk, stats, direct_only) if do_direct else (0, 0)
     cov = {
-        "evaluations": len(cases) + nboot, "distinct": len(keys), "distinct_nontrivial": len(nontriv),
-        "bootstrap_cases": nboot,
+        "evaluations": len(cases) + len(xcases) + nboot + ndirect, "distinct": len(keys) + len(xkeys),
+        "distinct_nontrivial": len(nontriv) + len(xnontriv) + dnontriv,
+        "bootstrap_cases": nboot, "extended_cases": len(xcases), "direct_cases": ndirect,
         "rule": "operation sequences on the real Calibrator with token samplers: round-robin line-ups of 1-6 samplers with splits "
                 "into several calibrate() calls, checkpoints and restores; RL scheduler with a scripted agent (with / without / with "
-                "several Halton samplers in the line-up); the four constructor argument combinations; non-trivial = at least 3 batches",
-        "samples": cf.sample_cases(cases, obs),
-        "traces_validated_against_impl": len(cases) - len(bad), "model_impl_disagreements": len(bad),
+                "several Halton samplers in the line-up); the four constructor argument combinations; round 4: the same with "
+                "line-ups given as tuples or as lists the caller changes afterwards, numpy-integer batch sizes / batch counts, "
+                "batch_size and convergence_precision / verbose / saving_folder reassigned between calls (Model/CalibX.v), a real "
+                "MABEpsilonGreedy agent, a saving folder holding another run, losses as numpy scalars / 0-d arrays; direct (oracle "
+                "only): one sampler object at several positions, one sampler list shared by two calibrators; non-trivial = at "
+                "least 3 batches",
+        "samples": cf.sample_cases(cases, obs) + cf.sample_cases(xcases, xobs, 2),
+        "traces_validated_against_impl": len(cases) - len(bad) + len(xcases) - len(xbad),
+        "model_impl_disagreements": len(bad) + len(xbad),
         "distribution": dict(sorted(stats.items())),
     }
     return chk.finish(cov, assumptions=cf.ASSUME + ["RL: the agent is an oracle of actions; the k-th sampler used is checked against the "
